@@ -65,6 +65,10 @@ def check(prop, tier, seed, replay=None):
                     b = [x if x is not None else a[k] for k, x in enumerate(pu)]
                     if rnd.random() < 0.4 and any(x is None for x in pu):
                         k = rnd.choice([q for q, x in enumerate(pu) if x is None]); b[k] = b[k] + 1 if b[k] < C.hi(u) else b[k] - 1
+                    elif rnd.random() < 0.35 and any(x is None for x in pu):
+                        # a value that is congruent to the other operand's modulo the narrower type's range (must compare unequal)
+                        k = rnd.choice([q for q, x in enumerate(pu) if x is None]); w = b[k] + 2 ** min(C.ITYPES[t][0], C.ITYPES[u][0])
+                        if w <= C.hi(u): b[k] = w
                     b = [min(max(x, 0), C.hi(u)) for x in b]
                 else: b = [x if x is not None else (rep_vals(rnd, u) or 2) for x in pu]
                 cases.append((G.pline('exteq', p) + ' vals=%s vals2=%s obs' % (C.fmt(a), C.fmt(b)), 'eq', dict(pair=[[t, list(pt)], [u, list(pu)]], a=a, b=b)))
@@ -81,6 +85,7 @@ def check(prop, tier, seed, replay=None):
             rep.cov['evaluations'] += 1; rep.cov['traces_validated_against_impl'] += 1
             pub = dict(line=line, fam=fam, meta=meta, config=cfg)
             if xi == 'no-inst' and xm == 'no-inst': continue
+            if xi == 'no-op' and 'k=span_' in line and '17' in cfg.split('-')[0]: continue     # std::span construction paths exist from C++20 on (README)
             if xi != xm:
                 rep.broke(dict(correspondence='ext family, exact transcript', impl=xi, model=xm, **pub))
             # property statement on the implementation
